@@ -595,6 +595,8 @@ func driveAllocExtra(s *shardSet, rng *rand.Rand) {
 	// many small buffers of one type allocated by several goroutines at once: each goroutine stamps its own buffers
 	// and keeps re-reading them (every event projects all of the goroutine's live views)
 	var wg sync.WaitGroup
+	concurrentRecording = true
+	defer func() { concurrentRecording = false }()
 	for g := 0; g < len(s.ws); g++ {
 		wg.Add(1)
 		go func(g int) {
